@@ -288,6 +288,14 @@ def _drive(run, gen_name, t, expect_reject, source, dir_state, root, probe, know
                 called["n"] += 1
                 return Nothing()
 
+        if position == "attempt":
+            # a check without a @catch of its own that rejects by letting a nested .attempt() escape (the project's
+            # early-return idiom): the rejection travels as the idiom's exception up to whoever catches it
+            def reject(self, fcp_, node):  # noqa: F811
+                called["n"] += 1
+                error("synthetic rejection through .attempt() in category %s" % cat).attempt()
+                return c09_ok()
+
         if position == "pair":
             # two different checks that happen to share their __name__ (closures of one helper): the
             # first rejects, the second accepts - both are registered checks and both must run
@@ -545,7 +553,7 @@ def run(run):
             for cat in ("service", "method", "enumeration"):
                 drive(run, g, t, True, "synthetic/%s/last" % cat, rr.choice(DIR_STATES), root, probe=(cat, "last"), known_names=names)
             for cat in CATEGORIES:
-                for pos in ("last", "first", "pair", "late", "nothing"):
+                for pos in ("last", "first", "pair", "late", "nothing", "attempt"):
                     drive(run, g, t, True, "synthetic/%s/%s" % (cat, pos), rr.choice(DIR_STATES), root, probe=(cat, pos), known_names=names)
         if run.shard == 0:
             cli_cases(run, root)
